@@ -18,6 +18,9 @@ strengthened = {
  "C09-C":"c09: constructive only-en-passant family (posgen/eponly.go)",
  "C09-D":"c09: constructive only-en-passant family, two capturers one pinned",
  "C18-D":"c18: same-kind (promoted) attacker groups with x-rays; shares by cases; 100k cases",
+ "C16-C":"c16p: constructed positions with 0/1/2 quiet moves and pending bad captures",
+ "C16-D":"c16p: picker runs on a USED move store pre-filled with adversarial stale weights; few-quiet positions",
+ "C13-D":"c13: real-search `go ponder` left alone on near-final roots (clock 85..99, pre-repetition, mate/stalemate-adjacent)",
  "C05-D":"c05/c01 generator: pawns around the en-passant square, doubled enemy pawns on its file",
 }
 def describe(v):
